@@ -1,6 +1,7 @@
 package checks
 
 import (
+	"os"
 	"archive/tar"
 	"archive/zip"
 	"bytes"
@@ -252,6 +253,9 @@ func runC50(c *fw.Ctx) {
 			reqs = append(reqs, request{tc, ti, tc.tree, "tree", "", "", "none", fm, nil})
 			reqs = append(reqs, request{tc, ti, tc.tag, "tag", "", "", "none", fm, nil})
 		}
+	}
+	if os.Getenv("S13_ONLY_NEW") != "" { // development aid: only the extra requests
+		reqs = nil
 	}
 	richTC := &treeCase{}
 	c50ExtraRequests(c, g, func(kind, treeish, prefix, fkind, format string, filters []string) {
